@@ -12,8 +12,9 @@
     calls a printer) -> structured command [cmd] -> [decode_effect] (EVOware's pairing rule) = the volume
     change applied by the Labware tracking: C13_parse, C13_agree_text, C13_agree_aspirate_text,
     C13_agree_dispense_text, C13_wash_parse (review item M4).  The older statements via the printer
-    ([text = render_cmd c], C13_render, C13_agree, ...) are kept; [render_cmd] and [parse_cmd] are inverse
-    on well-formed commands (C13_parse_render).
+    ([text = cmd_text (c_volume a) c], i.e. [render_cmd c] or, for an all-int volume list, [render_cmd_int c];
+    C13_render, C13_agree, ...) are kept; [render_cmd] and [parse_cmd] are inverse on well-formed commands
+    (C13_parse_render), and [parse_cmd] reads the whole-number spelling as well (C13_parse_render_int).
     Hypothesis of the text-level theorems: the liquid class contains neither a comma nor a double quote
     ([tx_lc_clean]).  The library and the model emit the liquid class unescaped and only refuse ";", so
     without this hypothesis the text does not determine the command (C13_example_lc_unparsable).
@@ -27,8 +28,18 @@
       string with [decode_selection] of Spec/SelDecode.v column by column in ascending row order
       ([selected_wells]) and must lie in one column; k-th tip serves k-th well with the volume of the
       tip's own slot ([pair_up]); result [(row, column, hundredths # 100)] per well.
+    The volume argument [cmdvol] is a scalar ([CVScalar]), a list with at least one float or non-number
+    ([CVList]), a list consisting ONLY of Python ints ([CVIntList l], l : list Z) or anything else ([CVOther]).
+    An all-int list is checked and tracked exactly like the float list of the same numbers
+    ([int_pvols l] = the list of [PV (XQ (inject_Z z))]), but numpy keeps it integer, so the text shows the
+    whole numbers as plain integers ("5" where the float list shows "5.0"): Spec/CmdDecode.v has the second
+    printer [render_cmd_int] for this spelling (a used slot of h hundredths is written as h / 100), and the
+    textual parser reads "5" and "5.0" alike as 500 hundredths (C13_parse_render_int, C13_int_list).
     Proofs/EvoCmdProofs.v:
       [evo_command_struct]  the structured command that [evo_command] renders (same checks, same errors);
+      [cmd_text v c]        the text of the structured command [c] for the volume argument [v]:
+                            [render_cmd_int c] if [v] is a [CVIntList], [render_cmd c] otherwise;
+      [slot_whole o]        the slot [o] is unused or holds a multiple of 100 hundredths;
       [cmd_vols v m n]      the validated volume list of a command for [n] wells;
       [track_wells a], [track_vols a]  the two components of
                             [wells_vols (c_wells a) (evo_vols (c_volume a))], i.e. the lists handed to
@@ -91,6 +102,9 @@ Theorem C13_reject_volumes : forall kind R C a m,
   (forall l x, c_volume a = CVList l -> In x l -> bad_volume x -> exists e, r = Err e) /\
   (forall l q, c_volume a = CVList l -> In (PV (XQ q)) l -> (m < q)%Q -> exists e, r = Err e) /\
   (forall l, c_volume a = CVList l -> length l <> length wells -> exists e, r = Err e) /\
+  (forall l z, c_volume a = CVIntList l -> In z l -> (z < 0)%Z -> exists e, r = Err e) /\
+  (forall l z, c_volume a = CVIntList l -> In z l -> (m < inject_Z z)%Q -> exists e, r = Err e) /\
+  (forall l, c_volume a = CVIntList l -> length l <> length wells -> exists e, r = Err e) /\
   (c_volume a = CVOther -> exists e, r = Err e) /\
   (forall e g s, length wells = length (c_tips a) -> strictly_ascending_str wells = true ->
      c_grid a = PInt g -> (1 <= g <= 67)%Z -> c_site a = PInt s -> (1 <= s <= 128)%Z ->
@@ -103,7 +117,8 @@ Theorem C13_reject_errors : forall kind R C a m e,
   evo_command kind R C a m = Err e ->
   e = EReject \/
   (e = EInvalidOp /\ exists q, (0 <= q)%Q /\ (m < q)%Q /\
-     (c_volume a = CVScalar (PV (XQ q)) \/ exists l, c_volume a = CVList l /\ In (PV (XQ q)) l)).
+     (c_volume a = CVScalar (PV (XQ q)) \/ (exists l, c_volume a = CVList l /\ In (PV (XQ q)) l) \/
+      (exists l z, c_volume a = CVIntList l /\ In z l /\ q = inject_Z z))).
 Proof. exact errors_statement. Qed.
 Print Assumptions C13_reject_errors.
 
@@ -171,10 +186,11 @@ Print Assumptions C13_wash_worklist.
 
 (* ------------------------------------------------------------------ C13_fields *)
 
-(** the emitted text is the rendering of the structured command, for every input; same errors *)
+(** the emitted text is the rendering of the structured command, for every input; same errors
+    ([cmd_text v c] is [render_cmd c] unless [v] is an all-int list, and [render_cmd_int c] then) *)
 Theorem C13_render : forall kind R C a m,
   evo_command kind R C a m =
-  match evo_command_struct kind R C a m with Ok c => Ok (render_cmd c) | Err e => Err e end.
+  match evo_command_struct kind R C a m with Ok c => Ok (cmd_text (c_volume a) c) | Err e => Err e end.
 Proof. exact evo_command_render. Qed.
 Print Assumptions C13_render.
 
@@ -184,7 +200,7 @@ Print Assumptions C13_render.
 Theorem C13_fields : forall kind R C a m text,
   evo_command kind R C a m = Ok text ->
   exists c bs,
-    evo_command_struct kind R C a m = Ok c /\ text = render_cmd c /\
+    evo_command_struct kind R C a m = Ok c /\ text = cmd_text (c_volume a) c /\
     elems_bits (c_tips a) = Some bs /\ asc_nat bs = true /\
     cm_kind c = kind /\
     c_liquid_class a = PStr (cm_lc c) /\
@@ -211,7 +227,7 @@ Theorem C13_accept_iff : forall kind R C a m text,
   evo_command kind R C a m = Ok text <->
   exists grid site qs lc bs sl sel,
     accepted R C a m grid site qs lc bs sl sel /\
-    text = render_cmd (the_cmd kind R C a grid site lc bs sl sel).
+    text = cmd_text (c_volume a) (the_cmd kind R C a grid site lc bs sl sel).
 Proof. exact evo_command_ok_iff. Qed.
 Print Assumptions C13_accept_iff.
 
@@ -266,7 +282,7 @@ Theorem C13_agree : forall kind n_rows n_cols a m text,
   n_rows <= 26 -> n_cols < 256 ->
   evo_command kind n_rows n_cols a m = Ok text ->
   exists c qs rcs,
-    evo_command_struct kind n_rows n_cols a m = Ok c /\ text = render_cmd c /\
+    evo_command_struct kind n_rows n_cols a m = Ok c /\ text = cmd_text (c_volume a) c /\
     map (make_well_index n_rows n_cols) (flattenF (c_wells a)) = map Some rcs /\
     length qs = length rcs /\
     track_vols a = map XQ qs /\
@@ -282,7 +298,7 @@ Theorem C13_agree_aspirate : forall s k a label s' L,
   g_cols (lw_geom L) < 256 ->
   exists L' w text c rcs qs,
     nth_error (st_lw s') k = Some L' /\ st_wl s' = emit w [RCmd text] /\
-    text = render_cmd c /\
+    text = cmd_text (c_volume a) c /\
     decode_effect (n_row_ids (lw_geom L)) (g_cols (lw_geom L)) c = Some (effect_of rcs qs) /\
     length qs = length rcs /\
     length (lw_vols L') = length (lw_vols L) /\
@@ -296,7 +312,7 @@ Theorem C13_agree_dispense : forall s k a label comps s' L,
   g_cols (lw_geom L) < 256 ->
   exists L' w text c rcs qs,
     nth_error (st_lw s') k = Some L' /\ st_wl s' = emit w [RCmd text] /\
-    text = render_cmd c /\
+    text = cmd_text (c_volume a) c /\
     decode_effect (n_row_ids (lw_geom L)) (g_cols (lw_geom L)) c = Some (effect_of rcs qs) /\
     length qs = length rcs /\
     length (lw_vols L') = length (lw_vols L) /\
@@ -312,6 +328,13 @@ Theorem C13_parse_render : forall c, tx_cmd_valid c -> parse_cmd (render_cmd c) 
 Proof. exact tx_parse_render_cmd. Qed.
 Print Assumptions C13_parse_render.
 
+(** ... and the whole-number spelling of a well-formed command whose used slots are whole numbers of
+    microlitres: "5" is read as "5.0" *)
+Theorem C13_parse_render_int : forall c, tx_cmd_valid c -> Forall slot_whole (cm_slots c) ->
+  parse_cmd (render_cmd_int c) = Some c.
+Proof. exact tx_parse_render_cmd_int. Qed.
+Print Assumptions C13_parse_render_int.
+
 (** ... so the printer is injective on them *)
 Theorem C13_render_injective : forall c c', tx_cmd_valid c -> tx_cmd_valid c' ->
   render_cmd c = render_cmd c' -> c = c'.
@@ -325,6 +348,24 @@ Theorem C13_parse : forall kind R C a m text,
   exists c, parse_cmd text = Some c /\ evo_command_struct kind R C a m = Ok c.
 Proof. exact tx_evo_command_parse. Qed.
 Print Assumptions C13_parse.
+
+(** per-tip volumes given as a list of Python ints [l]: the text is the whole-number spelling of the structured
+    command of the call; every used slot is a multiple of 100 hundredths; this text and the float spelling
+    [render_cmd c] parse to the same command [c]; [l] has one entry per well, each within 0 .. max_volume, and
+    the tracking was handed exactly these numbers *)
+Theorem C13_int_list : forall kind R C a m l text,
+  kind = "Aspirate"%string \/ kind = "Dispense"%string -> tx_lc_clean (c_liquid_class a) ->
+  c_volume a = CVIntList l ->
+  evo_command kind R C a m = Ok text ->
+  exists c,
+    evo_command_struct kind R C a m = Ok c /\ text = render_cmd_int c /\
+    Forall slot_whole (cm_slots c) /\
+    parse_cmd text = Some c /\ parse_cmd (render_cmd c) = Some c /\
+    length l = length (flattenF (c_wells a)) /\
+    track_vols a = map (fun z => XQ (inject_Z z)) l /\
+    Forall (fun z => (0 <= z)%Z /\ (inject_Z z <= m)%Q) l.
+Proof. exact tx_evo_command_int. Qed.
+Print Assumptions C13_int_list.
 
 (** the text determines the structured command *)
 Theorem C13_text_determines : forall kind R C a m kind' R' C' a' m' text,
@@ -484,6 +525,41 @@ Example C13_example_scalar :
        c_liquid_class := PStr "LC"; c_tips := [TTip 1; TTip 8]; c_arm := 1%Z |} 950 =
   Ok "B;Dispense(129,""LC"",""7.0"",0,0,0,0,0,0,""7.0"",0,0,0,0,67,127,1,""0C0860000000000000"",0,1);".
 Proof. vm_compute. reflexivity. Qed.
+
+(** per-tip volumes as a list of Python ints, volumes=[5, 10]: plain integers in the text; the float list
+    [5.0, 10.0] gives "5.0","10.0"; both texts parse to the same command (500 and 1000 hundredths), whose
+    decoded effect is 5 ul on B01 and 10 ul on C01; the tracking sees the same volumes in both cases; a mixed
+    list [5, 2.5] is a float list; an int above max_volume and an int list of the wrong length are refused *)
+Definition ex_int_args (v : cmdvol) : cmdargs :=
+  {| c_wells := A1 ["B01"; "C01"]; c_grid := PInt 67; c_site := PInt 128; c_volume := v;
+     c_liquid_class := PStr "LC"; c_tips := [TTip 1; TTip 8]; c_arm := 1%Z |}.
+
+Example C13_example_int_list :
+  let int_text := "B;Dispense(129,""LC"",""5"",0,0,0,0,0,0,""10"",0,0,0,0,67,127,1,""0C0860000000000000"",0,1);" in
+  let float_text := "B;Dispense(129,""LC"",""5.0"",0,0,0,0,0,0,""10.0"",0,0,0,0,67,127,1,""0C0860000000000000"",0,1);" in
+  let c := {| cm_kind := "Dispense"; cm_mask := 129; cm_lc := "LC";
+              cm_slots := [Some 500%Z; None; None; None; None; None; None; Some 1000%Z];
+              cm_grid := 67; cm_site := 127; cm_sel := "0C0860000000000000"; cm_arm := 1 |} in
+  evo_command "Dispense" 8 12 (ex_int_args (CVIntList [5; 10]%Z)) 950 = Ok int_text /\
+  evo_command "Dispense" 8 12 (ex_int_args (CVList [PV (XQ 5); PV (XQ 10)])) 950 = Ok float_text /\
+  evo_command_struct "Dispense" 8 12 (ex_int_args (CVIntList [5; 10]%Z)) 950 = Ok c /\
+  evo_command_struct "Dispense" 8 12 (ex_int_args (CVList [PV (XQ 5); PV (XQ 10)])) 950 = Ok c /\
+  parse_cmd int_text = Some c /\ parse_cmd float_text = Some c /\
+  render_cmd_int c = int_text /\ render_cmd c = float_text /\
+  decode_effect 8 12 c = Some [(1, 0, 500 # 100); (2, 0, 1000 # 100)] /\
+  track_vols (ex_int_args (CVIntList [5; 10]%Z)) = [XQ 5; XQ 10] /\
+  track_vols (ex_int_args (CVList [PV (XQ 5); PV (XQ 10)])) = [XQ 5; XQ 10] /\
+  evo_command "Dispense" 8 12 (ex_int_args (CVList [PV (XQ 5); PV (XQ 2.5)])) 950 =
+    Ok "B;Dispense(129,""LC"",""5.0"",0,0,0,0,0,0,""2.5"",0,0,0,0,67,127,1,""0C0860000000000000"",0,1);" /\
+  evo_command "Dispense" 8 12 (ex_int_args (CVIntList [0; 950]%Z)) 950 =
+    Ok "B;Dispense(129,""LC"",""0"",0,0,0,0,0,0,""950"",0,0,0,0,67,127,1,""0C0860000000000000"",0,1);" /\
+  evo_command "Dispense" 8 12 (ex_int_args (CVIntList [5; 951]%Z)) 950 = Err EInvalidOp /\
+  evo_command "Dispense" 8 12 (ex_int_args (CVIntList [5; -1]%Z)) 950 = Err EReject /\
+  evo_command "Dispense" 8 12 (ex_int_args (CVIntList [5; 7158279]%Z)) 10000000 = Err EReject /\
+  evo_command "Dispense" 8 12 (ex_int_args (CVIntList [5]%Z)) 950 = Err EReject /\
+  evo_command "Dispense" 8 12 (ex_int_args (CVIntList [5; 10; 15]%Z)) 950 = Err EReject /\
+  tx_lc_clean (c_liquid_class (ex_int_args (CVIntList [5; 10]%Z))).
+Proof. vm_compute. repeat split; reflexivity. Qed.
 
 (** on the worklist: a well-formed 8 x 12 plate with 100 ul everywhere *)
 Definition ex_plate96 : labware :=
